@@ -401,6 +401,12 @@ class DiHypergraph:
 
         if strong:
             for edge in edge_neighbors["in"].union(edge_neighbors["out"]):
+                for node in self._edge[edge]["in"]:
+                    if node != n:
+                        self._node[node]["out"].remove(edge)
+                for node in self._edge[edge]["out"]:
+                    if node != n:
+                        self._node[node]["in"].remove(edge)
                 del self._edge[edge]
                 del self._edge_attr[edge]
         else:  # weak removal
